@@ -5,7 +5,7 @@
 CHECK = {
     "C17": dict(
         bin="run_closersim", build="external", pkg="run_closersim", level="exploration",
-        quick=dict(runs=2000, wall=90), thorough=dict(runs=120000, wall=1200),
+        quick=dict(runs=12000, wall=90), thorough=dict(runs=300000, wall=1200),
         rule=("one evaluation = one seeded run: a channel pair of one of the seven channel types (either opener, "
               "capacities 20k sat - 5 BTC, dust limits 200-3000 sat) is brought to an HTLC-free state by a seeded history "
               "(synchronous payments/fails/fee updates, or an asynchronous chansim history wound down clean), then closed in "
